@@ -149,6 +149,15 @@ func runTotal(s string, tag string, long bool) totalEvent {
 	return ev
 }
 
+// deadline: far above the budget of TotalitySem.tla, so that a budget overrun is still measured and only a
+// real hang is cut off
+func deadline(n int) time.Duration {
+	if n <= 4096 {
+		return 15 * time.Second
+	}
+	return 150 * time.Second
+}
+
 func init() {
 	handlers["total"] = func(j Job, emit func(any)) {
 		var inputs [][]int
@@ -163,16 +172,23 @@ func init() {
 		}
 		var longs []longIn
 		_ = jsonUnmarshal(j["longs"], &longs)
+		hung := false
 		run := func(s string, long bool) {
+			if hung {
+				// a hung call keeps spinning in its goroutine; one hang already decides the run, so the
+				// remaining inputs of this batch are not started
+				return
+			}
 			done := make(chan totalEvent, 1)
 			go func() { done <- runTotal(s, tag, long) }()
 			select {
 			case ev := <-done:
 				emit(ev)
-			case <-time.After(120 * time.Second):
+			case <-time.After(deadline(len(s))):
 				ev := totalEvent{K: "total", Tag: tag, N: len(s), Bytes: codes(s[:min(len(s), 64)]), Show: printable([]byte(s[:min(len(s), 64)])),
-					V: map[string]int{"*": 5}, R: map[string]int{}, VersR: map[string]int{}, VersP: map[string]int{}, MaxMs: 120000, Slow: "deadline"}
+					V: map[string]int{"*": 5}, R: map[string]int{}, VersR: map[string]int{}, VersP: map[string]int{}, MaxMs: int(deadline(len(s)) / time.Millisecond), Slow: "deadline"}
 				emit(ev)
+				hung = true
 			}
 		}
 		for _, in := range inputs {
